@@ -234,7 +234,7 @@ class C05(TrainCase):
 
 class C07(TrainCase):
     pid = 'C07'
-    gen_kw = dict(restarts=0.0, extras=0.3, scheduler=0.3, max_ops=6,
+    gen_kw = dict(restarts=0.4, extras=0.3, scheduler=0.3, max_ops=6,
                   clip_none=0.25)
     force_monitors = {'read_factors': True}
     expected_probes = ['clip_checks', 'clip_none', 'clip_zero_inner',
